@@ -1007,13 +1007,23 @@ func (agg *aggregate) Process(ctx context.Context, man gdbi.Manager, in gdbi.InP
 					}
 				}
 
+				//order the terms by frequency so that `size` keeps the most frequent ones
+				terms := make([]interface{}, 0, len(fieldTermCounts))
+				for term := range fieldTermCounts {
+					terms = append(terms, term)
+				}
+				sort.SliceStable(terms, func(i, j int) bool {
+					return fieldTermCounts[terms[i]] > fieldTermCounts[terms[j]]
+				})
 				count := 0
-				for term, tcount := range fieldTermCounts {
+				for _, term := range terms {
+					tcount := fieldTermCounts[term]
 					if size <= 0 || count < int(size) {
 						//sTerm, _ := structpb.NewValue(term)
 						//fmt.Printf("Term: %s %s %d\n", a.Name, sTerm, tcount)
 						out <- &gdbi.BaseTraveler{Aggregation: &gdbi.Aggregate{Name: a.Name, Key: term, Value: float64(tcount)}}
 					}
+					count++
 				}
 				return outErr
 			})
